@@ -1,9 +1,39 @@
-use pdatastructs::tdigest::{TDigest, K0};
+// one-off measurement of near-bound Bloom cells (not part of any check)
+use pdatastructs::filters::bloomfilter::BloomFilter;
+use pdatastructs::filters::Filter;
+use pdsverif::engine::mix;
+use pdsverif::support::hashers::{GenBH, HKind};
 fn main() {
-    let mut d = TDigest::new(K0::new(10.0), 0);
-    d.insert_weighted(0.1, 1e-6);
-    d.insert_weighted(0.1, 1.0);
-    d.insert_weighted(0.2, 1.0);
-    println!("{:?}", d);
-    println!("{}", d.quantile(0.2500003749998125));
+    for &(n, p) in &[(50usize, 3e-4f64), (100, 1e-4), (75, 1e-4), (50, 1e-4)] {
+        let seeds = 3200u64;
+        let probes = 400_000u64;
+        let per: Vec<f64> = std::thread::scope(|s| {
+            let hs: Vec<_> = (0..16u64)
+                .map(|t| {
+                    s.spawn(move || {
+                        let mut v = vec![];
+                        for sd in (t * seeds / 16)..((t + 1) * seeds / 16) {
+                            let hsd = mix(12345, sd);
+                            let mut f: BloomFilter<u64, GenBH> = BloomFilter::with_properties_and_hash(n, p, GenBH(HKind::Seeded(hsd % (1 << 48))));
+                            for i in 0..n as u64 {
+                                f.insert(&(mix(hsd, i) << 1)).unwrap();
+                            }
+                            let mut hits = 0u64;
+                            for j in 0..probes {
+                                if f.query(&((mix(hsd ^ 0x5555, j) << 1) | 1)) {
+                                    hits += 1;
+                                }
+                            }
+                            v.push(hits as f64 / probes as f64);
+                        }
+                        v
+                    })
+                })
+                .collect();
+            hs.into_iter().flat_map(|h| h.join().unwrap()).collect()
+        });
+        let m = per.iter().sum::<f64>() / per.len() as f64;
+        let sd = (per.iter().map(|x| (x - m) * (x - m)).sum::<f64>() / (per.len() as f64 - 1.0)).sqrt();
+        println!("n={} p={} rate/p = {:.4} +- {:.4}  (bound 1.3)", n, p, m / p, sd / (per.len() as f64).sqrt() / p);
+    }
 }
